@@ -10,6 +10,10 @@ for f in sorted(glob.glob(os.path.join(ROOT, "evidence", "C*.json"))):
     e = json.load(open(f))
     if e.get("tier") != "quick":
         continue
+    src = e.get("source") or {}
+    assert src and not src.get("experiment") and not src.get("repo_dirty") and not src.get("partial") \
+        and e.get("violations", 0) == 0, \
+        f"{f}: not the evidence of a complete clean run on the committed /repo tree: {src}"
     base[e["property_id"]] = {"obligations": e["coverage"]["obligations"],
                               "core_obligations": e["coverage"].get("core_obligations", 0)}
     for k, v in (e["coverage"].get("lock_sets_at_access_sites") or {}).items():
